@@ -80,11 +80,13 @@ def run_check(prop: str, repo: Path | None, tier="quick", seed=0, timeout=1500):
     return {"prop": prop, "rc": rc, "wall": round(time.time() - t0, 1), "lines": lines[:8], "tail": out.splitlines()[-1:] }
 
 
-def demo_cmd(d: Path, repo: Path):
+def demo_cmd(d: Path, repo: Path, hashseed=None):
     demo = next((p for p in (d / "demo.py", d / "test_demo.py") if p.exists()), None)
     if demo is None:
         return None
     env = dict(os.environ, PYTHONPATH=f"{repo}/src")
+    if hashseed is not None:
+        env["PYTHONHASHSEED"] = str(hashseed)
     if demo.name.startswith("test_"):
         cmd = [PY, "-m", "pytest", "-q", "-p", "no:cacheprovider", "-x", str(demo)]
     else:
@@ -97,13 +99,21 @@ def demo_cmd(d: Path, repo: Path):
 def verify(sid: str, suite=True):
     d = SEEDED / sid
     res = {}
-    with Worktree(None) as clean:
-        res["demo_clean"] = demo_cmd(d, clean)
     with Worktree(d / "patch.diff") as wt:
+        hs = None
         res["demo_patched"] = demo_cmd(d, wt)
+        # a change that only shows under some set orders: pin the hash seed (recorded in the result)
+        for hs2 in (0, 1, 2):
+            if res["demo_patched"] and res["demo_patched"][0] != 0:
+                break
+            hs = hs2
+            res["demo_patched"] = demo_cmd(d, wt, hs)
+        res["demo_hashseed"] = hs
         if suite:
             r = sh([sys.executable, str(VERIF / "tools/baseline.py"), str(wt)])
             res["suite"] = r.stdout.strip().splitlines()[-3:]
+    with Worktree(None) as clean:
+        res["demo_clean"] = demo_cmd(d, clean, hs)
     ok = res["demo_clean"] and res["demo_clean"][0] == 0 and res["demo_patched"] and res["demo_patched"][0] != 0
     res["ok"] = bool(ok) and (not suite or any("regressions=0" in l for l in res.get("suite", [])))
     return res
